@@ -237,8 +237,11 @@ class BaseFileLock(abc.ABC):
             except:  # noqa
                 _logger.exception("Failed to release lock %s on %s", lid, fn)
             else:
-                self._lock_counter = 0
                 _logger.info('Lock %s released on %s', lid, fn)
+            finally:
+                # The descriptor is gone either way, so this object no
+                # longer holds the lock whatever _release reported
+                self._lock_counter = 0
 
         try:
             for _ in range(levels):
